@@ -282,11 +282,18 @@ class HttpProxyPlugin(HttpProtocolHandlerPlugin):
             # tls interception is enabled
             if raw is not None:
                 if not self.request.is_https_tunnel or self._tls_intercept_enabled:
-                    if self.response.is_complete:
-                        self.handle_pipeline_response(raw)
-                    else:
-                        self.response.parse(raw)
-                        self.emit_response_events(len(raw))
+                    # Inspection only: a response our parser cannot digest
+                    # must still be relayed to the client as received.
+                    try:
+                        if self.response.is_complete:
+                            self.handle_pipeline_response(raw)
+                        else:
+                            self.response.parse(raw)
+                            self.emit_response_events(len(raw))
+                    except Exception as e:
+                        logger.debug(
+                            'Unable to parse upstream response, relaying as is: %r' % e,
+                        )
                 else:
                     self.response.total_size += len(raw)
                 # queue raw data for client
